@@ -51,6 +51,10 @@ CLAIMED = {
         technique="runtime monitoring: differential execution - the real Postgres backend code on a dialect-translating driver (pgshim) and the SQLite backend, both against the same reference model, same sequences",
         text="No Postgres server exists in the sandbox, so the real internal/app/subsystems/aio/store/postgres code (statement text with its guards, argument order, scan order, result mapping, transaction handling) runs on pgshim, a database/sql driver that translates the Postgres dialect it sends ($n, ::casts, jsonb @>, DISTINCT ON, SERIAL/JSONB/BYTEA DDL, case-sensitive LIKE) to SQLite and enforces the declared integer widths. The same generated sequences (all 27 kinds, integers over the full client-reachable ranges) run on it and on the SQLite backend; every result and the full table contents of both must equal the reference model, i.e. each other.",
         note="Limit: behaviour that exists only inside a real Postgres server (planner, isolation levels, jsonb text normalisation, lock waits, SERIAL gaps) is out of reach; the translator (harness/vstore/pgshim.go, self-tested at start) and SQLite's execution of the translated text are trusted. Statements the translator does not understand make the check exit 2, not pass."),
+    "C15": dict(engine="front", category="exploration", design="DESIGN.md §4 C15, §2.5",
+        technique="runtime monitoring: exhaustive endpoint x status x shape table over both real front ends on a scripted stub kernel, judged by table lookup and structural comparison; request-translation equality",
+        text="http.New and grpc.New run over a stub kernel that records the t_api.Request and answers with a scripted outcome. The status list is parsed from internal/kernel/t_api/status.go at run time. Every one of the 20 HTTP routes and 19 gRPC methods is crossed with every status constant, both delivery forms (status inside a response, t_api.Error) and response shapes (all optional fields set, optional fields nil, every promise state): HTTP status must be status/100 with a JSON resource or an error body carrying the code, gRPC must be OK or the mapped code (the check's own table), flags must agree with the status, rendered promises/schedules/locks/claim messages must equal what the kernel returned, no reply may be dropped and the process must survive (cases run in child processes; a death is attributed to the logged case). The same generated request content is sent through every route of both protocols and the captured kernel requests must be equal. Pairs the kernel cannot produce today are run but only reported. The space is finite and enumerated completely in both tiers.",
+        note="Trusted: the stub kernel (harness/vfront/child.go), the table of statuses each request kind can answer (from the sequential specification), the check's own gRPC code table. Only front-end rendering is judged, not the kernel."),
 }
 
 PENDING_REASON = "check for this property is not built yet in this round (machinery under construction; see DESIGN.md §9 build order)"
